@@ -36,13 +36,27 @@ def run_history(ctx, rule, n):
         sat = rng.choice(STABLE_SATS[case.btype])
         sc = core.sat_class(sat)
         multi = rng.random() < 0.4
+        # a third of the list histories REPLACE one voter's measure in the satisfaction profile instead of adding voters: the number
+        # of voters stays the same (round 7, C08-r7A: per-project totals memoised on the satisfaction profile, dropped only when
+        # its length changes)
+        replace = None
+        if not multi and case.ballots and rng.random() < 0.45:
+            replace = rng.randrange(len(case.ballots))
+            late = late[:1]
         inst, projs = core.build_instance(case)
         prof1 = core.build_profile(case, inst, projs, multi=multi)
         prof2 = core.build_profile(case, inst, projs, multi=multi, ballots=late)
-        case12 = Case(case.projects, case.budget, case.btype, list(case.ballots) + list(late), case.seed)
+        if replace is None:
+            case12 = Case(case.projects, case.budget, case.btype, list(case.ballots) + list(late), case.seed)
+        else:
+            case12 = Case(case.projects, case.budget, case.btype, [late[0] if i == replace else b for i, b in enumerate(case.ballots)], case.seed)
         prof12 = core.build_profile(case12, inst, projs, multi=multi)
         sp = prof1.as_sat_profile(sc)
         cfg = {"rule": rule, "sat": sat, "multi": multi, "history": "sat_profile reused and extended in place", "late": [dict((k, core.q2s(v)) for k, v in b.items()) if isinstance(b, dict) else list(b) for b in late]}
+        if replace is not None:
+            cfg["history"] = "sat_profile reused, one voter's measure replaced in place"
+            cfg["replace"] = replace
+            cfg["first"] = case.to_json()
         tie = "lexico"
         kw = {}
         if rule == "greedy":
@@ -71,7 +85,9 @@ def run_history(ctx, rule, n):
 
         try:
             out1 = f(inst, prof1, sat_profile=sp, **kw)
-            if multi:
+            if replace is not None:
+                sp[replace] = sc(inst, prof12, prof12[replace])
+            elif multi:
                 sp.extend_from_multiprofile(prof2, sc)
             else:
                 sp.extend_from_profile(prof2, sc)
@@ -81,7 +97,7 @@ def run_history(ctx, rule, n):
             ctx.evaluations += 1
             continue
         ctx.evaluations += 1
-        ctx.count("history", rule)
+        ctx.count("history", rule + (":replace" if replace is not None else ":extend"))
         for step, (c, out) in enumerate(((case, out1), (case12, out2))):
             got = sorted(c.rank[p.name] for p in out)
             exp, wf = expected(c)
@@ -108,6 +124,8 @@ def replay(payload):
     late = cfg["late"]
     n1 = len(case12.ballots) - len(late)
     case = Case(case12.projects, case12.budget, case12.btype, case12.ballots[:n1], case12.seed)
+    if cfg.get("replace") is not None:
+        case = Case.from_json(cfg["first"])
     # deterministic re-execution with the stored configuration
     import pabutools.rules as R
 
@@ -125,7 +143,10 @@ def replay(payload):
         kw["is_sat_additive"] = True if cfg.get("additive") is None else cfg["additive"]
     f = {"greedy": R.greedy_utilitarian_welfare, "mes": R.method_of_equal_shares, "maxw": R.max_additive_utilitarian_welfare}[rule]
     f(inst, prof1, sat_profile=sp, **kw)
-    (sp.extend_from_multiprofile if multi else sp.extend_from_profile)(prof2, sc)
+    if cfg.get("replace") is not None:
+        sp[cfg["replace"]] = sc(inst, prof12, prof12[cfg["replace"]])
+    else:
+        (sp.extend_from_multiprofile if multi else sp.extend_from_profile)(prof2, sc)
     out2 = f(inst, prof12, sat_profile=sp, **kw)
     fresh = f(inst, prof12, sat_profile=prof12.as_sat_profile(sc), **kw)
     a, b = sorted(p.name for p in out2), sorted(p.name for p in fresh)
